@@ -16,7 +16,7 @@ class C13(Prop):
     LONG_BIAS = 0.1
     WEIGHTS = {"page": 5, "pages": 2, "links": 2, "batch": 2, "again": 0, "create": 4, "delete": 2, "addprefix": 4,
                "rmprefix": 2, "move": 3, "rule": 2, "unrule": 1, "reopen": 1}
-    QUICK = (14, 22)
+    QUICK = (40, 22)
     THOROUGH = (200, 40)
     ASSUMPTIONS = ["prefix map from the ledger (explicit edits + reported creations) defines the expected hierarchy"]
 
